@@ -1,30 +1,74 @@
-"""Reference model of per-connection object tracking (independent of core/)."""
+"""Reference model of per-connection object tracking (DESIGN appendix B). Independent of core/.
+
+world: tag -> connection, named A, B, ... in order of first appearance; t0 = time of the first message
+connection: db = {1: [wl_display gen 0]}, role from the first message
+step(m): target = db[m.id][-1]; delete_id on this connection's wl_display kills db[arg0][-1];
+         bind types its new id from the interface-name argument; a new id appends an incarnation
+         (implicitly destroying a live server-range predecessor, without annotation); an object argument
+         is db[id][-1].
+"""
 SERVER_BASE = 0xff000000
-def letters(n):
-    n += 1; s = ''
+
+
+def letters(n, caps=False):
+    n += 1
+    s = ''
+    base = ord('A') if caps else ord('a')
     while n > 0:
-        n -= 1; s = chr(ord('a') + n % 26) + s; n //= 26
+        n -= 1
+        s = chr(base + n % 26) + s
+        n //= 26
     return s
+
+
 class MObj:
-    def __init__(s, oid, gen, iface, t):
-        s.id = oid; s.gen = gen; s.iface = iface; s.created = t; s.destroyed = None; s.alive = True
-    def label(s): return '%s@%d%s' % (s.iface, s.id, letters(s.gen))
+    def __init__(self, oid, gen, iface, t):
+        self.id = oid
+        self.gen = gen
+        self.iface = iface
+        self.created = t          # integer microseconds relative to the first message (None for wl_display)
+        self.destroyed = None
+        self.alive = True
+        self.alive_at_use = True
+
+    def label(self):
+        return '%s@%d%s' % (self.iface, self.id, letters(self.gen))
+
+    def key(self):
+        return (self.iface, self.id, self.gen)
+
+
 class MConn:
-    def __init__(s, name):
-        s.name = name; s.db = {1: [MObj(1, 0, 'wl_display', 0)]}; s.msgs = []; s.role = None; s.open = True
-    def latest(s, oid): return s.db[oid][-1]
-    def step(s, m, t_rel_us):
-        """returns record: target obj, per-arg objs (or None), destroyed obj, created list"""
-        if not s.msgs and m['name'] == 'get_registry':
-            s.role = 'client' if m['sent'] else 'server'
-        elif not s.msgs:
-            s.role = 'unknown'
-        tgt = s.latest(m['id'])
+    def __init__(self, name):
+        self.name = name
+        self.db = {1: [MObj(1, 0, 'wl_display', None)]}
+        self.msgs = []
+        self.role = None
+        self.open = True
+
+    def latest(self, oid):
+        return self.db[oid][-1]
+
+    def alive_set(self):
+        return {o.key() for l in self.db.values() for o in l if o.alive}
+
+    def all_objects(self):
+        return [o for l in self.db.values() for o in l]
+
+    def step(self, m, t_rel_us):
+        if not self.msgs:
+            if m['name'] == 'get_registry':
+                self.role = 'client' if m['sent'] else 'server'
+            else:
+                self.role = 'unknown'
+        tgt = self.latest(m['id'])
+        tgt_alive = tgt.alive
         destroyed = None
         if tgt.id == 1 and tgt.gen == 0 and m['name'] == 'delete_id' and m['args']:
-            destroyed = s.latest(m['args'][0][1])
-            destroyed.alive = False; destroyed.destroyed = t_rel_us
-        argobjs = []; created = []
+            destroyed = self.latest(m['args'][0][1])
+            destroyed.alive = False
+            destroyed.destroyed = t_rel_us
+        argobjs, args_alive, created, implicit = [], [], [], []
         bind_type = None
         if tgt.iface == 'wl_registry' and m['name'] == 'bind':
             bind_type = m['args'][1][1]
@@ -32,29 +76,59 @@ class MConn:
             if a[0] == 'new':
                 iface = a[1] if a[1] is not None else bind_type
                 oid = a[2]
-                lst = s.db.setdefault(oid, [])
+                lst = self.db.setdefault(oid, [])
                 if lst and lst[-1].alive:
-                    assert oid >= SERVER_BASE, 'ill-formed: live client id reused'
-                    lst[-1].alive = False; lst[-1].destroyed = t_rel_us
-                o = MObj(oid, len(lst), iface, t_rel_us); lst.append(o)
-                argobjs.append(o); created.append(o)
+                    assert oid >= SERVER_BASE, 'ill-formed history: live client id %d reused' % oid
+                    lst[-1].alive = False
+                    lst[-1].destroyed = t_rel_us
+                    implicit.append(lst[-1])
+                o = MObj(oid, len(lst), iface, t_rel_us)
+                lst.append(o)
+                argobjs.append(o)
+                args_alive.append(True)
+                created.append(o)
             elif a[0] == 'obj' and a[2] is not None:
-                argobjs.append(s.latest(a[2]))
+                o = self.latest(a[2])
+                argobjs.append(o)
+                args_alive.append(o.alive)
             else:
                 argobjs.append(None)
-        rec = dict(m=m, t=t_rel_us, target=tgt, args=argobjs, destroyed=destroyed, created=created)
-        s.msgs.append(rec)
+                args_alive.append(True)
+        tgt_rec = tgt
+        rec = dict(m=m, t=t_rel_us, target=tgt_rec, target_alive=tgt_alive, args=argobjs, args_alive=args_alive,
+                   destroyed=destroyed, created=created, implicit=implicit)
+        # convenience for class labels
+        tgt.alive_at_use = tgt_alive
+        self.msgs.append(rec)
         return rec
+
+    def mentions(self, rec, obj):
+        """is `obj` the target of, an object/new-id argument of, or destroyed by the recorded message?"""
+        return rec['target'] is obj or any(o is obj for o in rec['args']) or rec['destroyed'] is obj
+
+
 class MWorld:
-    def __init__(s): s.conns = {}; s.order = []; s.base = None; s.n = 0
-    def step(s, m):
-        if s.base is None: s.base = m['t_us']
-        tag = m['conn'] if m['conn'] is not None else 'PARSED'
+    def __init__(self):
+        self.conns = {}
+        self.order = []
+        self.base = None
+        self.n = 0
+        self.recs = []
+
+    def step(self, m):
+        if self.base is None:
+            self.base = m['t_us']
+        tag = m['conn'] if m.get('conn') is not None else 'PARSED'
         opened = False
-        if tag not in s.conns:
-            name = letters(s.n).upper(); s.n += 1
-            s.conns[tag] = MConn(name); s.order.append(tag); opened = True
-        c = s.conns[tag]
-        rec = c.step(m, m['t_us'] - s.base)
-        rec['conn'] = c; rec['opened'] = opened
+        if tag not in self.conns:
+            name = letters(self.n, caps=True)
+            self.n += 1
+            self.conns[tag] = MConn(name)
+            self.order.append(tag)
+            opened = True
+        c = self.conns[tag]
+        rec = c.step(m, m['t_us'] - self.base)
+        rec['conn'] = c
+        rec['opened'] = opened
+        self.recs.append(rec)
         return rec
